@@ -97,7 +97,7 @@ RealGlobals ==
     NW("mir-gen-x86_64", "UI2F_P"), NW("mir-gen-x86_64", "UI2D_P"), NW("mir-gen-x86_64", "UI2LD_P"), NW("mir-gen-x86_64", "LD2I_P"),
     NW("mir-gen-x86_64", "VA_ARG_P"), NW("mir-gen-x86_64", "VA_ARG"), NW("mir-gen-x86_64", "VA_BLOCK_ARG_P"), NW("mir-gen-x86_64", "VA_BLOCK_ARG"),
     \* c2mir/c2mir.c and the files it includes
-    G("c2mir", "VOID_TYPE", "lazy-once", {}, {"check"}),         \* check() makes pointer types point to it (alloca, &&label);
+    G("c2mir", "VOID_TYPE", "never-written", {}, {"check"}),         \* check() makes pointer types point to it (alloca, &&label);
                                                                  \* set_type_layout then stores raw_size/align through that pointer
     G("c2mir", "err_struct", "address-only", {}, {"*"}),        \* err_node sentinel of the parser
     NW("c2mir", "FIRST_KW"), NW("c2mir", "LAST_KW"), NW("c2mir", "varg"), NW("c2mir", "FP_NAME"), NW("c2mir", "RET_ADDR_NAME"),
